@@ -36,6 +36,7 @@ type Stats struct {
 	Asserts, AssertQueries         int
 	MaxFrontier                    int
 	IdenticalMerges                int
+	MergedReleases                 int
 }
 
 type Intrinsic func(e *Engine, st *State, th *Thread, fn *ssa.Function, args []Value, in *ssa.Call) Value
@@ -58,6 +59,7 @@ type Engine struct {
 	MaxEnum   int
 	MaxAlloc  int
 	NoMerge   bool
+	MergeReleases bool // execute Unlock/RUnlock/WaitGroup.Add without a scheduling point (left movers)
 	MergeFull bool // merge differing states under selector variables (symbolic schedule); default: join identical states only
 	MaxConfigs int
 	Deadline  time.Time
@@ -115,7 +117,7 @@ type Engine struct {
 
 func NewEngine(prog *ssa.Program, solver *smt.Solver) *Engine {
 	e := &Engine{prog: prog, Solver: solver, Log: os.Stderr,
-		FeasCheck: true, Unwind: 300, MaxDepth: 200, MaxEnum: 16, MaxAlloc: 4096, MaxConfigs: 5_000_000,
+		FeasCheck: true, MergeReleases: true, Unwind: 300, MaxDepth: 200, MaxEnum: 16, MaxAlloc: 4096, MaxConfigs: 5_000_000,
 		intrinsics: map[string]Intrinsic{}, modelFns: map[string]*ssa.Function{}, atomicFns: map[string]bool{},
 		visibleFns: map[string]VisKind{},
 		objIDs:     map[objKey]ObjID{}, threadIDs: map[threadKey]ThreadID{}, globals: map[*ssa.Global]ObjID{},
